@@ -416,6 +416,12 @@ func execChain(args []string, lines [][]string) []string {
 
 	build := func() {
 		f = flamego.NewWithLogger(io.Discard)
+		if (nmw+2*ngrp+nrt)%3 == 0 {
+			// a HandlerWrapper is configured (it applies to the group's and the route's handlers that have no built-in
+			// fast shape, e.g. the value-returning ones): the identity — every handler is still the one registered,
+			// although many of them are closures of one and the same function
+			f.HandlerWrapper(func(h flamego.Handler) flamego.Handler { return h })
+		}
 		var fns []flamego.Handler
 		for i := range hs {
 			fns = append(fns, hs[i].handler(i, cur))
